@@ -504,7 +504,7 @@ func init() {
 				}
 				p := ref.LocalPath{Ups: ups}
 				for i := 0; i < n-ups; i++ {
-					p.Names = append(p.Names, rnd.Pick([]string{"a", "b", "mod-1", "x.y", "é", "_", "a b"}))
+					p.Names = append(p.Names, rnd.Pick([]string{"a", "b", "mod-1", "x.y", "é", "_", "a b", ".github", "..data", ".a", "...", "-"}))
 				}
 				s := p.String()
 				v, err := sourceaddrs.ParseLocalSource(s)
